@@ -26,7 +26,8 @@ CHECKS = {
              'a Z-field scaffold, every base datatype, and Z-/varies-ended segments over indices 1..64 (thorough 512; ordered '
              'pairs of 12 indices; assign-then-delete) are built by name, encoded and compared with the reference encoding of '
              '"value at (i,j,k), nothing else"; the reference text is parsed back and looked up under the same name. Every '
-             'segment and datatype is instantiated. Exhaustive over the tables.',
+             'segment and datatype is instantiated; for adjacent versions (both directions, fresh process each) the first, middle and last field of '
+             'every shared segment are checked after the segment was used in the other version. Exhaustive over the tables.',
         note='trusted: tables define positions (field number = number in the name); reference encoder; 63 known table defects (D1-D3) keyed by full position map'),
     'C07': dict(
         engine=E1, design_ref='DESIGN.md section 7 C07',
@@ -41,7 +42,8 @@ CHECKS = {
              'set. Every single-defect set (each key missing, each pair of roles equal incl. truncation, non-dict, malformed '
              'MSH-2) must raise InvalidEncodingChars at three entry points, as the first thing the process sees and again after '
              'the valid sets it derives from have been used, and when assigned to an existing message; sets that differ from the default in '
-             'one role and the independence of the dictionary read back from other messages are checked per version; the reference text with a Z segment and with a standard segment the '
+             'one role, every punctuation character in every role, the set assigned to an existing message before it is filled and the independence '
+             'of the dictionary read back from other messages are checked per version; the reference text with a Z segment and with a standard segment the '
              'structure does not list must re-encode identically with group finding on and off.',
         note='trusted: reference encoder/escaper; pool excludes characters that occur in the recipe content'),
     'C09': dict(
@@ -52,7 +54,7 @@ CHECKS = {
              'all histories up to depth 3 (thorough 4) over an alphabet of ~68 operations (set by name / lower case / long name / '
              'element, proxy[i]=, children[i]=, add, add_<child> helper, del, del proxy[i], remove, pop, copy from a donor by '
              'proxy and by element, donor mutations, reads and a refused write through the proxy of a child - which leave temporary '
-             'traversal children behind, writes through the proxy, copies addressed by long name; one root whose by-name entry was emptied) are explored after canonical state merging (~16,000 states, ~125,000 '
+             'traversal children behind, writes through the proxy, copies addressed by long name, a repetition replaced by another repetition of the same parent; one root whose by-name entry was emptied) are explored after canonical state merging (~16,000 states, ~125,000 '
              'transitions in quick); after each accepted transition the per-name repetition texts, the children order and the '
              'ER7 encoding of root and donor must equal those of an insertion-ordered list of (name, text) entries.',
         note='trusted: the list model (100 lines), reference encoder; 3 child names and 2 values per root; canonical key drops only the proxy memo'),
@@ -87,11 +89,11 @@ CHECKS = {
         engine=E2, design_ref='DESIGN.md section 7 C12',
         technique='explicit-state breadth-first search: every state reachable by set/add/delete/copy histories x every rejecting '
                   'operation; before/after equality of the complete public observation on every transition that raises',
-        text='11 roots (Segment TOLERANT/STRICT and inside a Message, empty STRICT Segment and Group, Field T/S, flat Message T/S, '
+        text='13 roots (Segment TOLERANT/STRICT and inside a Message, empty STRICT Segment and Group, Z segment and varies-ended segment, Field T/S, flat Message T/S, '
              'Group T/S); building alphabet of 16 operations plus ~45 rejecting operations (wrong class, wrong / foreign / unknown name, other validation level or '
              'version by add / assignment / indexed assignment, cardinality overflow, invalid and over-long values under STRICT, '
              'absent child or index deletion, foreign remove, datatype change on a populated element, value text of another '
-             'segment / message, value whose children are refused midway, a datatype object the child refuses, a child that already '
+             'segment / message, value whose children are refused midway, a datatype object the child refuses, a refused value assigned to a valued subcomponent object, a child that already '
              'belongs to an element of another level / version offered by add and by parent=, a STRICT move beyond the maximum); '
              'all histories to depth 3 (thorough 4): ~8,900 states, ~85,000 transitions. Whenever a call raises, encoding, recursive listing (class, name, datatype, text per node) and '
              'per-name repetitions of target, donor and ancestor must be unchanged and the C10 invariants must hold.',
@@ -117,7 +119,8 @@ CHECKS = {
              'other spelling must be empty; the only child of every base-datatype field of every segment of every version is '
              'addressed by datatype name (three cases) and by position. ~3.4 million (write spelling, read spelling) pairs in quick. Per parent, names that '
              'designate no child (a child of another parent, index past the last, index 99, index 0 and negative indices, malformed paths) must raise '
-             'ChildNotFound / ChildNotValid for get, set and delete and leave the parent unchanged.',
+             'ChildNotFound / ChildNotValid for get, set and delete and leave the parent unchanged. A datatype object assigned by long name and add_field with a long name '
+             'create the child under its HL7 name; after the datatype of a field is replaced the long names follow the new datatype.',
         note='trusted: the tables as definition of names; 251 long names excluded (duplicated in the parent or equal to an attribute of the element class)'),
     'C15': dict(
         engine=E1, design_ref='DESIGN.md section 7 C15',
@@ -128,7 +131,8 @@ CHECKS = {
              'lines at every position, CRLF / LF, plus all strings up to length 4 (thorough 5) over {M S H | ^ ~ \\ & CR 2 . 5 A} '
              'after 3 prefixes (~99,000 distinct inputs x 2 levels); a second seed with nested and sibling groups (ORU_R01) with every '
              'segment id replaced by 8 alternatives, 6 lines inserted once and twice at every position, every line deleted, every '
-             'pair of lines swapped; ordered pairs of texts whose delimiter sets differ in one character, each pair in a fresh process. Every outcome must be a value, an HL7apyException or (STRICT) a '
+             'pair of lines swapped; ordered pairs of texts whose delimiter sets differ in one character, each pair in a fresh process; one message per segment of every version with every leaf valued goes through parse, to_er7 and validate; every segment name of the '
+             'version replaces every segment of the seed; the junk alphabet holds a blank and a sharp s. Every outcome must be a value, an HL7apyException or (STRICT) a '
              'ValueError; every returned message must encode and must return a validation report.',
         note='trusted: traceback inspection for the finding key only'),
     'C16': dict(
@@ -174,7 +178,8 @@ CHECKS = {
              'is reported, by the message and by each group instance validated on its own. For every segment of 2.5 (thorough: all '
              'versions) each ST/NM/ID/IS/SI leaf field gets its datatype swapped in the profile; the child created by traversal '
              'read, traversal write, add_* helpers, parse_message(message_profile=), text assignment and assignment of an element '
-             'copied from a message built without the profile must carry the profile datatype (also one level down: a subcomponent datatype swapped below a complex component), and a STRICT parse must refuse a value only valid for the standard datatype. Shipped ITI-21 profile, a '
+             'copied from a message built without the profile must carry the profile datatype (also one level down: a subcomponent datatype swapped below a complex component, and the positional path under a component whose datatype the profile changed); '
+             'a stand-alone segment added to a message with a profile is validated by the profile; and a STRICT parse must refuse a value only valid for the standard datatype. Shipped ITI-21 profile, a '
              'profile lacking the structure (MessageProfileNotFound) and the legacy files (LegacyMessageProfile) are checked.',
         note='trusted: profile synthesiser (same tuple shape as the shipped profile); children listed twice in a structure (D12) are blocked'),
     'C19': dict(
@@ -184,7 +189,8 @@ CHECKS = {
                   'plus a frame-condition audit of all process-wide library state',
         text='171 two- and three-thread harnesses over a corpus of 20 factory / build / parse / encode / validate bodies (incl. fields '
              'beyond the table of Z and varies-ended segments, a highlights list shared by the callers, a structure that lists a child name '
-             'twice, a number beyond the default decimal precision, a custom-delimiter parse against a nested-group parse) '
+             'twice, a number beyond the default decimal precision, a custom-delimiter parse against a nested-group parse, a Z segment added through the child API, both threads setting the default '
+             'version with calls that name their version probed after every execution) '
              '(forced collision on one version, and mixed version/level variants) are executed under every schedule with at '
              'most 2 preemptions (small x small), 1 preemption (small/medium x medium, 3 threads) and both serial orders '
              '(large bodies) in the quick tier, ~470,000 complete executions; thorough raises the bounds (3 / 1 at bytecode '
@@ -230,7 +236,7 @@ CHECKS = {
              'with an error text naming the mutated child (its parent for unnamed elements). On every conforming and one mutated '
              'instance per structure: encoding and recursive listing unchanged by validate(), two calls report equally, is_valid '
              '== (errors == []), the raising form raises exactly errors[0] (type and text) or returns True, and the report '
-             'written to a file object and to a path consists exactly of the Error:/Warning: lines of the returned lists. A foreign child attached and removed again (remove / del / pop) leaves a conforming message. Z segments '
+             'written to a file object and to a path consists exactly of the Error:/Warning: lines of the returned lists. The Z-segment cases of a version are repeated right after those of the adjacent version (fresh process each). A foreign child attached and removed again (remove / del / pop) leaves a conforming message. Z segments '
              'holding conforming fields of two or three different complex datatypes (adjacent pairs of the datatype list in both '
              'orders; thorough: all ordered pairs), alone and inside a conforming message, must validate, and must name the '
              'component when one required component is left out.',
@@ -262,7 +268,8 @@ CHECKS = {
              'reference (no raw delimiter, no lone escape), re-encoded (idempotence), and compared with the input when '
              'the input is already escaped; end to end, every string <= 3 is assigned as a datatype object at field, '
              'component and subcomponent level of a message with custom delimiters and the separator counts are compared, and '
-             'the same segment on its own, encoded with the set passed explicitly to to_er7(), must give the same text (the set being the dictionary read from the message while another message is alive). Ordered '
+             'the same segment on its own, encoded with the set passed explicitly to to_er7(), must give the same text (the set being the dictionary read from the message while another message is alive). 40 repetitions of each symbol and a 120-character cycle of the alphabet; every highlight range of every string <= 3 (4) without '
+             'escape character against the encoding of its three pieces. Ordered '
              'units (fresh process each): every class after every other class, and each class under its delimiter sets in every '
              'order with strings over the union of their alphabets. '
              'Complete within the bounds; says nothing about longer strings or other characters.',
